@@ -26,6 +26,10 @@ namespace Rpc
 inductive Loc where
   | mailbox (a : Nat)      -- inside a message queued at actor `a`
   | actor (a : Nat)        -- held by `a`'s running handler or state: dropped when `a` exits
+  /-- inside the boxed state of the `ActorTerminated(cell, Some(state), _)` event of actor `a`
+  (graceful stop of a supervised actor): queued at, or stashed by, `a`'s supervisor — lives as
+  long as that event -/
+  | event (a : Nat)
   | detached               -- moved to a task that outlives the callee
   | replied (v : Nat)      -- `send v` was called on it (consumed)
   | dropped                -- dropped without a reply
@@ -57,6 +61,17 @@ structure Actor where
   draining : Bool
   mailbox : List Item
   received : List Nat            -- forwarded values handled, in order
+  sup : Option Nat := none       -- supervisor (index in `S.sups`) the actor was spawned linked to
+  deriving Repr, DecidableEq
+
+/-- A supervisor: an actor whose `handle_supervisor_evt` decides, for every termination event
+that carries the child's last state, whether to keep (stash) or drop it. Events are named by
+the child they report (an actor terminates once). Events without a state (kill, failure)
+hold no port and are not tracked. -/
+structure Sup where
+  alive : Bool
+  inbox : List Nat               -- state-carrying termination events not yet handled, in arrival order
+  stash : List Nat               -- events the supervisor decided to keep
   deriving Repr, DecidableEq
 
 structure S where
@@ -64,9 +79,10 @@ structure S where
   actors : List Actor
   calls : List Call
   groups : Nat                   -- number of multi_call groups created
+  sups : List Sup := []
   deriving Repr
 
-def init : S := { now := 0, actors := [], calls := [], groups := 0 }
+def init : S := { now := 0, actors := [], calls := [], groups := 0, sups := [] }
 
 /-- what the callee's handler does with a dequeued call -/
 inductive Act where
@@ -86,6 +102,12 @@ inductive Op where
   | stop (a : Nat) (act : Act)
   | drain (a : Nat)
   | advance (d : Nat)
+  | spawnSup                            -- a new supervisor
+  | spawnl (u : Nat)                    -- `spawn_linked` under supervisor `u` (fails if `u` is gone)
+  /-- supervisor `u` handles the next queued termination event: stash it (`keep`) or drop it -/
+  | suphandle (u : Nat) (keep : Bool)
+  | supdrop (u a : Nat)                 -- `u` drops the stashed event of actor `a`
+  | supexit (u : Nat)                   -- `u` is killed: inbox and stash are dropped, its children are killed
   deriving Repr
 
 def accepting (s : S) (a : Nat) : Bool :=
@@ -144,6 +166,71 @@ def exitActor (s : S) (a : Nat) : S :=
     else s
   | none => s
 
+/-! ### supervisors holding the last state of a gracefully stopped child -/
+
+/-- some live supervisor holds (queued or stashed) the termination event of actor `a` -/
+def supHolds (sups : List Sup) (a : Nat) : Bool :=
+  sups.any (fun u => u.alive && (u.inbox.contains a || u.stash.contains a))
+
+/-- some live supervisor has STASHED the termination event of actor `a` (it can reach into the state) -/
+def supStashed (sups : List Sup) (a : Nat) : Bool :=
+  sups.any (fun u => u.alive && u.stash.contains a)
+
+def supAlive (s : S) (u : Nat) : Bool :=
+  match s.sups[u]? with
+  | some x => x.alive
+  | none => false
+
+/-- the ports held in `a`'s state travel with the boxed state into `a`'s termination event -/
+def toEvent (a : Nat) (c : Call) : Call :=
+  match c.loc with
+  | .actor b => if b == a then { c with loc := .event a } else c
+  | _ => c
+
+/-- Graceful exit (`stop`, drain completion): `processing_loop` returns `Ok`, the state is boxed
+into `ActorTerminated(cell, Some(BoxedState), reason)` and sent to the supervisor (actor.rs,
+`start`); the mailbox is dropped as in any exit. Without a (live) supervisor the event — and the
+state in it — is dropped at once. A kill / failure (`exitActor`) never carries the state. -/
+def stopActor (s : S) (a : Nat) : S :=
+  match s.actors[a]? with
+  | some x =>
+    if x.alive then
+      match x.sup with
+      | some u =>
+        if supAlive s u then
+          exitActor { s with sups := s.sups.modify u (fun y => { y with inbox := y.inbox ++ [a] }),
+                             calls := s.calls.map (toEvent a) } a
+        else exitActor s a
+      | none => exitActor s a
+    else s
+  | none => s
+
+/-- a port inside an event that no live supervisor holds any more is dropped -/
+def dropOrphan (sups : List Sup) (c : Call) : Call :=
+  match c.loc with
+  | .event a => if supHolds sups a then c else { c with loc := .dropped }
+  | _ => c
+
+/-- after a supervisor dropped an event (or died): drop the ports whose event is gone -/
+def sweep (s : S) : S := { s with calls := s.calls.map (dropOrphan s.sups) }
+
+/-- `terminate()`: a dying supervisor kills every child still linked to it -/
+def killChildren (s : S) (u : Nat) : S :=
+  (List.range s.actors.length).foldl (fun s a =>
+    match s.actors[a]? with
+    | some y => if y.sup == some u then exitActor s a else s
+    | none => s) s
+
+/-- supervisor `u` is killed: the event it was handling, its supervision queue and its state
+(the stash) are dropped; its children are killed (their events find no supervisor) -/
+def supExit (s : S) (u : Nat) : S :=
+  match s.sups[u]? with
+  | some x =>
+    if x.alive then
+      killChildren (sweep { s with sups := s.sups.modify u (fun _ => { alive := false, inbox := [], stash := [] }) }) u
+    else s
+  | none => s
+
 /-- one `call`-style send of a fresh port to `a`; returns the new state and whether the send succeeded -/
 def sendCall (s : S) (a : Nat) (timeout group forward : Option Nat) : S × Bool :=
   let p := s.calls.length
@@ -176,7 +263,7 @@ def handleCore (s : S) (a : Nat) (act : Act) : S :=
   | some x =>
     if !x.alive then s else
     match x.mailbox with
-    | [] => if x.draining then exitActor s a else s       -- the drain marker: stop by itself
+    | [] => if x.draining then stopActor s a else s       -- the drain marker: stop by itself (gracefully)
     | .call p :: _ =>
       applyAct (setActor s a (fun y => { y with mailbox := y.mailbox.tail })) p a act
     | .fwd v :: _ =>
@@ -184,7 +271,7 @@ def handleCore (s : S) (a : Nat) (act : Act) : S :=
   | none => s
 
 def stepCore (s : S) : Op → S
-  | .spawn => { s with actors := s.actors ++ [⟨true, false, [], []⟩] }
+  | .spawn => { s with actors := s.actors ++ [{ alive := true, draining := false, mailbox := [], received := [], sup := none }] }
   | .call a t => (sendCall s a t none none).1
   | .mcall as t => { sendMulti s s.groups t as with groups := s.groups + 1 }
   | .fcall a f t => (sendCall s a t none (some f)).1
@@ -197,18 +284,44 @@ def stepCore (s : S) : Op → S
        | .detached, .reply v => setCall s p (fun c => { c with loc := .replied v })
        | .actor _, .drop => setCall s p (fun c => { c with loc := .dropped })
        | .detached, .drop => setCall s p (fun c => { c with loc := .dropped })
+       -- the supervisor takes the port out of a state it stashed (`BoxedState::take`)
+       | .event a, .reply v => if supStashed s.sups a then setCall s p (fun c => { c with loc := .replied v }) else s
+       | .event a, .drop => if supStashed s.sups a then setCall s p (fun c => { c with loc := .dropped }) else s
        | _, _ => s)
     | none => s
   | .exit a => exitActor s a
-  | .stop a act => exitActor (handleCore s a act) a
+  | .stop a act => stopActor (handleCore s a act) a
   | .drain a => setActor s a (fun x => if x.alive then { x with draining := true } else x)
   | .advance d => { s with now := s.now + d }
+  | .spawnSup => { s with sups := s.sups ++ [{ alive := true, inbox := [], stash := [] }] }
+  | .spawnl u =>
+    if supAlive s u then
+      { s with actors := s.actors ++ [{ alive := true, draining := false, mailbox := [], received := [], sup := some u }] }
+    else s
+  | .suphandle u keep =>
+    match s.sups[u]? with
+    | some x =>
+      if !x.alive then s else
+      match x.inbox with
+      | [] => s
+      | a :: rest =>
+        if keep then { s with sups := s.sups.modify u (fun y => { y with inbox := rest, stash := y.stash ++ [a] }) }
+        else sweep { s with sups := s.sups.modify u (fun y => { y with inbox := rest }) }
+    | none => s
+  | .supdrop u a =>
+    match s.sups[u]? with
+    | some x =>
+      if x.alive && x.stash.contains a then
+        sweep { s with sups := s.sups.modify u (fun y => { y with stash := y.stash.erase a }) }
+      else s
+    | none => s
+  | .supexit u => supExit s u
 
 /-- A draining actor whose mailbox is empty has reached its drain marker: it stops by itself. -/
 def drainExits (s : S) : S :=
   (List.range s.actors.length).foldl (fun s a =>
     match s.actors[a]? with
-    | some x => if x.alive && x.draining && x.mailbox.isEmpty then exitActor s a else s
+    | some x => if x.alive && x.draining && x.mailbox.isEmpty then stopActor s a else s
     | none => s) s
 
 def step (s : S) (op : Op) : S := resolve (drainExits (stepCore s op))
@@ -231,13 +344,15 @@ def callOk (now : Nat) (c : Call) : Bool :=
      (match c.loc with | .replied _ => false | .dropped => false | _ => true) &&
      (match c.deadline with | some d => decide (now < d) | none => true))
 
-/-- Ports located in a dead actor do not exist: everything a stopped callee still owned was dropped. -/
-def locOk (actors : List Actor) (c : Call) : Bool :=
+/-- Ports located in a dead actor do not exist: everything a stopped callee still owned was dropped
+— or travelled, inside its last state, into a termination event that a LIVE supervisor holds. -/
+def locOk (actors : List Actor) (sups : List Sup) (c : Call) : Bool :=
   match c.loc with
   | .mailbox a => (match actors[a]? with | some x => x.alive | none => false)
   | .actor a => (match actors[a]? with | some x => x.alive | none => false)
+  | .event a => supHolds sups a
   | _ => true
 
-def ok (s : S) : Bool := s.calls.all (fun c => callOk s.now c && locOk s.actors c)
+def ok (s : S) : Bool := s.calls.all (fun c => callOk s.now c && locOk s.actors s.sups c)
 
 end Rpc
